@@ -72,6 +72,13 @@ def mm(funcs):
                                 for f in funcs], False)
 
 
+# functions every search property rests on (see prove.HUBS): their
+# obligations carry the tags of all these properties
+HUB_TARGETS = [('geoeligibility', None, False), ('tbrmmdata', None, False),
+               mm(['__init__', 'geos_over_budget', 'geos_too_large',
+                   'geos_must_include', 'geos_within_constraints',
+                   'geo_assignments'])]
+
 DEFS = {}
 
 
@@ -114,10 +121,11 @@ define(
 
 define(
     'C02', 'proof',
-    [mm(['treatment_group_size_range', '_control_group_size_generator',
-         'control_group_generator', '_constraint_not_satisfied',
-         'design_within_constraints', 'exhaustive_search',
-         'greedy_search'])],
+    HUB_TARGETS + [
+        mm(['treatment_group_size_range', '_control_group_size_generator',
+            'control_group_generator', '_constraint_not_satisfied',
+            'design_within_constraints', 'exhaustive_search',
+            'greedy_search'])],
     ENGINE_TRUST + PANDAS_TRUST + [
         'required impact / share are uninterpreted functions of the group '
         'series (their numerics belong to C04-C06)'],
@@ -137,7 +145,7 @@ define(
 
 define(
     'C03', 'exploration',
-    [('heapdict', None, True), ('tbrmmscore', None, False),
+    HUB_TARGETS + [('heapdict', None, True), ('tbrmmscore', None, False),
      ('tbrmmdesign', None, False),
      mm(['exhaustive_search.skip_if_subset', 'treatment_group_size_range',
          '_control_group_size_generator', 'treatment_group_generator',
@@ -167,11 +175,9 @@ define(
 
 define(
     'C04', 'proof',
-    [('tbrmmdata', ['TBRMMData.aggregate_time_series',
-                    'TBRMMData.aggregate_geo_share',
-                    'TBRMMData.geo_index.setter'], False),
-     ('tbrmmscore', None, False), ('tbrmmdesign', None, False),
-     mm(['exhaustive_search', 'greedy_search', 'search_results'])],
+    HUB_TARGETS + [
+        ('tbrmmscore', None, False), ('tbrmmdesign', None, False),
+        mm(['exhaustive_search', 'greedy_search', 'search_results'])],
     ENGINE_TRUST + PANDAS_TRUST + [
         'copy.deepcopy returns a fresh, disjoint, field-wise equal object '
         'graph',
@@ -220,7 +226,8 @@ define(
 
 define(
     'C10', 'proof',
-    [('heapdict', ['HeapDict.get_result'], False), mm(MM_FUNCS)],
+    HUB_TARGETS + [('heapdict', ['HeapDict.get_result'], False),
+                   mm(MM_FUNCS)],
     ENGINE_TRUST + PANDAS_TRUST + [
         'determinism: a function that reads only unmodified state and calls '
         'only deterministic library functions returns the same value again '
@@ -238,9 +245,10 @@ define(
 
 define(
     'C11', 'exploration',
-    [mm(['treatment_group_size_range', '_control_group_size_generator',
-         'treatment_group_generator', 'control_group_generator',
-         'count_max_designs'])],
+    HUB_TARGETS + [
+        mm(['treatment_group_size_range', '_control_group_size_generator',
+            'treatment_group_generator', 'control_group_generator',
+            'count_max_designs'])],
     ENGINE_TRUST + ['scipy.special.comb(n, k, exact=True) is the binomial '
                     'coefficient (uninterpreted BINOM)',
                     'itertools.combinations(S, r) produces every r-subset of '
@@ -264,7 +272,7 @@ define(
 
 define(
     'C13', 'exploration',
-    [mm(['design_within_constraints', 'greedy_search'])],
+    HUB_TARGETS + [mm(['design_within_constraints', 'greedy_search'])],
     ENGINE_TRUST,
     [],
     'Proved: every design the greedy search pushes is legal (while-loop '
